@@ -24,6 +24,10 @@ func serverCases(r *core.Run) {
 	}
 	for w := 0; w < r.N(4, 60); w++ {
 		mode := []string{"dn", "serial"}[w%2]
+		// certificate chain shape of the world: client certificates issued by the root directly / by an
+		// intermediate CA (clients send leaf + intermediate) / the same with every client appending the (public)
+		// certificate of client A to what it sends
+		shape := []string{"", "+inter", "+inter+other"}[w%3]
 		fam, kinds := certFamily(rd)
 		pick := func(kind string) (certDesc, bool) {
 			for i, k := range kinds {
@@ -67,10 +71,14 @@ func serverCases(r *core.Run) {
 		toks := identTokens(world)
 		h := fmt.Sprintf("srv%d", w)
 		caSeed := rd.Bytes(8)
-		r.Begin(fmt.Sprintf("srv-%s-%s-%x", mode, bKind, caSeed), true, "entry:server", "mode:"+mode, "relative:"+bKind)
-		if out := r.Impl(fmt.Sprintf("C02.srv.new %s %s %s %s", h, mode, core.Hex(caSeed), toks)); !r.Check(out == "ok", "srv-start", "the translator did not start: "+out) {
+		r.Begin(fmt.Sprintf("srv-%s%s-%s-%x", mode, shape, bKind, caSeed), true, "entry:server", "mode:"+mode, "relative:"+bKind, "chain:direct"+shape)
+		if out := r.Impl(fmt.Sprintf("C02.srv.new %s %s %s %s", h, mode+shape, core.Hex(caSeed), toks)); !r.Check(out == "ok", "srv-start", "the translator did not start: "+out) {
 			continue
 		}
+		if strings.HasSuffix(shape, "+other") {
+			r.Impl(fmt.Sprintf("C02.srv.append %s %s", h, certs[0].tokens()))
+		}
+		mode += shape // the op lines carry the shape with the mode; extractor mode = the part in front of `+`
 		call := func(model bool, rpc string, conn int, forged string, data []byte, hash string) string {
 			line := fmt.Sprintf("C02.srv.grpc %s %s %s %s %s %s %s", h, rpc, mode, certs[conn].tokens(), forged, core.Hex(data), hash)
 			if model {
